@@ -193,6 +193,21 @@ pub fn generate(rng: &mut Rng, tier: Tier, emit: &mut dyn FnMut(String)) {
     emit(format!("conn 1 {};t2000;s", vec!["S"; 1030].join(";")));
     emit(format!("conn 0 g;{};x;s", vec!["s"; 1030].join(";")));
     emit(format!("ka 1/1000/300 g;{}", vec!["s"; 1028].join(";")));
+    // the keep-alive request itself meets the full submit channel (it parks; `submitFull`)
+    emit(format!("ka 1/1000/300 g;{};t1000", vec!["s"; 1026].join(";")));
+    emit(format!("ka 1/1000/2500 g;{};t1000;G;t100;r1025;r1026;r0", vec!["s"; 1026].join(";")));
+    emit(format!("ka 0/1000/2500 g;{};t1000;c5;G;t100;r1025", vec!["s"; 1025].join(";")));
+    emit(format!("ka 1/500/1000 g;{};t500;x", vec!["s"; 1030].join(";")));
+    // hints: long before the first tick; while a probe is in flight (stored, consumed afterwards); twice (one permit)
+    for c in [
+        "ka 1/30000/300 s;s;t500;h",
+        "ka 1/30000/300 s;t100;h;r1;t200;h;h;t100;r1;t100",
+        "ka 0/2000/300 s;t2000;h;r1;t100;s;r1",
+        "ka 1/1000/300 h;s;t500;h;r0;r0;t400;t200",
+        "conn 1 s;h;r0;h;s",
+    ] {
+        emit(c.to_owned());
+    }
     // 4. multi-thread race: submissions concurrent with a server-side reset (oracle only)
     for _ in 0..(if quick { 300 } else { 3000 }) {
         let threads = *rng.pick(&[2usize, 4, 4, 8]);
@@ -237,6 +252,9 @@ pub fn generate(rng: &mut Rng, tier: Tier, emit: &mut dyn FnMut(String)) {
                 90..=92 => ops.push("g".into()),
                 93..=95 => ops.push("G".into()),
                 96 => ops.push("x".into()),
+                // a keep-alive hint; only where a probe cannot still be in flight when the next tick is due (then
+                // `select!` would pick between the two ready arms at random)
+                97 if interval > timeout => ops.push("h".into()),
                 97 => ops.push(format!("u{}", rng.below(6))),
                 _ => ops.push(format!("p{}", rng.below(submitted + 1))),
             }
@@ -307,6 +325,18 @@ fn run_conn(wc: bool, ka: Option<(u64, u64)>, ops: &[&str], ctx: &mut Ctx) -> St
             // the server falls silent for longer than interval + timeout
             for _ in 0..((i + t) / 100 + 3) {
                 sim.op("t100", ctx).await;
+            }
+            if sim.broken.is_none() {
+                // The router reports the break (`error_sender`) only after its drain loop has seen every outstanding
+                // channel permit used up. A caller that was parked at the full submit channel and has been handed a
+                // permit uses it when it is woken; this harness polls futures by hand, so give them that poll.
+                for k in 0..sim.futures.len() {
+                    sim.poll_req(k, ctx);
+                    if k % 64 == 63 {
+                        tokio::task::yield_now().await;
+                    }
+                }
+                sim.settle(ctx).await;
             }
             if sim.broken.is_none() {
                 ctx.fail("the server stalled for more than keepalive_interval + keepalive_timeout but the connection was not broken");
